@@ -1,6 +1,7 @@
 import BFL.Model.UT
 import BFL.Bridge.Mat
 import BFL.Proofs.UT
+import BFL.Proofs.UTCirc
 import Mathlib.Analysis.Matrix.Order
 import Mathlib.Analysis.SpecialFunctions.Sqrt
 /-
@@ -17,7 +18,8 @@ applied to.  No definiteness is assumed of `P`: whenever such a factor exists (e
 PSD `P`, singular ones included, `c ≥ 0`: `facOn_exists_of_posSemidef`) the identities hold.  The
 contract is checked numerically on every `sigma_point()` call the correspondence run observes.
 
-Circular and quaternion layouts: `BFL/Props/C03Circ.lean`.
+Circular and quaternion layouts: last section of this file (scalar kernels over ℝ; see
+`design-notes/C03.md` for what is partial).
 -/
 namespace BFL
 open Matrix UTProofs
@@ -342,5 +344,101 @@ example : ∃ (fac : ℚ → Mat ℚ 1 1 → Mat ℚ 1 1) (P : Mat ℚ 1 1),
   ext i j
   simp [utWeights, utLambda, Matrix.mul_apply, toM]
   norm_num
+
+
+/-! ### Circular (Euler angle) and quaternion blocks, over ℝ
+
+Angles are compared modulo 2π through their representative in `(-π, π]` (`wrapAngle`); quaternions
+in the rotation-vector tangent space.  "Spreads small enough" is made precise by the hypotheses:
+offsets in `(-π, π)`, positive weighted resultant (angles); rotation vectors of norm in
+`(10⁻⁴, π)` clearing the second cut-off (quaternions). -/
+
+section circular
+open Real
+
+/-- `directional_sub(directional_add(p, m), m) = p` whenever `-π < p ≤ π`: the input offsets of
+    the Euler-circular sigma points are the perturbations they were built from. -/
+theorem ut_circ_roundtrip (p m : ℝ) (hp : p ∈ Set.Ioc (-π) π) : dirSub (dirAdd p m) m = p :=
+  dir_roundtrip p m hp
+
+/-- The first circular sigma point is the mean modulo 2π (equal to it when the mean is stored in
+    `(-π, π]`). -/
+theorem ut_circ_first_is_mean (m : ℝ) :
+    Real.sin (dirAdd 0 m) = Real.sin m ∧ Real.cos (dirAdd 0 m) = Real.cos m ∧
+    (m ∈ Set.Ioc (-π) π → dirAdd 0 m = m) := by
+  unfold dirAdd
+  rw [zero_add]
+  exact ⟨sin_wrapAngle m, cos_wrapAngle m, fun h => wrapAngle_of_mem h⟩
+
+/-- Circular mean of the propagated points of a map that is affine on the angle: for points
+    `ȳ, ȳ ± δ_l` the weighted `directional_mean` under the unscented weights is `ȳ` (mod 2π),
+    provided the weighted resultant `wm₀ + 2 w Σ cos δ_l` is positive. -/
+theorem ut_circ_mean {n : ℕ} (hn : 1 ≤ n) (alpha beta kappa : ℝ) (ybar : ℝ) (δ : Fin n → ℝ)
+    (hR : 0 < utLambda n alpha kappa / ((n : ℝ) + utLambda n alpha kappa)
+            + 2 * (1 / (2 * ((n : ℝ) + utLambda n alpha kappa))) * ∑ l, Real.cos (δ l)) :
+    dirMean (symAngles ybar δ) (utWeights n alpha beta kappa).mean = wrapAngle ybar :=
+  dirMean_symmetric hn ybar δ _ _ _ (toV_utWeights_mean n alpha beta kappa) hR
+
+/-- … and the offsets from that mean are exactly `±δ_l` when `|δ_l| < π`, so that the circular rows
+    of the covariance are those of the linear case (`ut_affine_cov`) with `δ = (A B)` rows. -/
+theorem ut_circ_offsets (ybar δ : ℝ) (h1 : -π < δ) (h2 : δ < π) :
+    dirSub (ybar + δ) (wrapAngle ybar) = δ ∧ dirSub (ybar - δ) (wrapAngle ybar) = -δ ∧
+    dirSub ybar (wrapAngle ybar) = 0 := by
+  refine ⟨dirSub_wrapped_mean ybar δ ⟨h1, h2.le⟩, ?_, ?_⟩
+  · rw [sub_eq_add_neg]; exact dirSub_wrapped_mean ybar (-δ) ⟨by linarith, by linarith⟩
+  · have := dirSub_wrapped_mean ybar 0 ⟨by linarith [Real.pi_pos], Real.pi_pos.le⟩
+    simpa using this
+
+/-- The positivity hypothesis of `ut_circ_mean` is needed: with a negative resultant the circular
+    mean flips by half a turn (outside the property's "spreads small enough"; recorded, not a defect). -/
+theorem ut_circ_mean_flips_of_negative_resultant (R θ : ℝ) (hR : R < 0) :
+    (Transc.atan2 (R * Real.sin θ) (R * Real.cos θ) : ℝ) = wrapAngle (θ + π) := by
+  have := atan2_pos_mul (-R) (θ + π) (by linarith)
+  rw [Real.sin_add_pi, Real.cos_add_pi] at this
+  rw [← this]; congr 1 <;> ring
+
+/-- Quaternion sigma points are unit quaternions times the mean: the exponential is a unit quaternion. -/
+theorem ut_quat_exp_unit (r : V3 ℝ) :
+    (qexp r).w ^ 2 + (qexp r).x ^ 2 + (qexp r).y ^ 2 + (qexp r).z ^ 2 = 1 := qexp_unit r
+
+/-- Input offsets of the quaternion sigma points: `diff_quaternion(exp(r/2) ⊗ q, q) = r` for a unit
+    mean `q` and `10⁻⁴ < ‖r‖ < π`, `sin(‖r‖/2) > 10⁻⁴` (exact outside the cut-off band); a zero
+    perturbation leaves the mean. -/
+theorem ut_quat_input_offsets (q : Quat ℝ) (hq : q.w ^ 2 + q.x ^ 2 + q.y ^ 2 + q.z ^ 2 = 1) (r : V3 ℝ)
+    (h1 : (1e-4 : ℝ) < r.norm) (h2 : r.norm < π) (h3 : (1e-4 : ℝ) < Real.sin (r.norm / 2)) :
+    qdiff (qsum q r) q = r ∧ qsum q ⟨0, 0, 0⟩ = q :=
+  ⟨qdiff_qsum q hq r h1 h2 h3, qsum_zero q⟩
+
+/-- On a layout without circular block the general `sigma_point()` model is the linear one:
+    every row is `perturbation + mean`. -/
+theorem ut_layout_linear_points (L Z : ℕ) (mean : Vec ℝ (Layout.dim ⟨L, 0, false, Z⟩))
+    (pert : Mat ℝ (Layout.dof ⟨L, 0, false, Z⟩) (2 * Layout.dof ⟨L, 0, false, Z⟩ + 1))
+    (r : Fin (Layout.dim ⟨L, 0, false, Z⟩)) (j : Fin (2 * Layout.dof ⟨L, 0, false, Z⟩ + 1)) :
+    sigmaPointsLayout ⟨L, 0, false, Z⟩ mean pert r j
+      = pert ⟨r.val, by have := r.isLt; simp [Layout.dim, Layout.dof, Layout.csize] at *; omega⟩ j + mean r := by
+  have hr := r.isLt
+  have hj := j.isLt
+  simp only [Layout.dim, Layout.dof, Layout.csize] at hr hj
+  simp only [sigmaPointsLayout, Mat.eval_eq, Layout.csize, Layout.tsize, Layout.dof]
+  have hj' : j.val ≤ 2 * (L + Z) := by simp at hj; omega
+  by_cases h : r.val < L
+  · simp [Mat.getN, Vec.getN, Layout.dim, Layout.csize]
+    dsimp only [Mat.of]
+    simp [h, hj']
+    rfl
+  · simp [Mat.getN, Vec.getN, Layout.dim, Layout.csize]
+    dsimp only [Mat.of]
+    simp [h, hj']
+    rfl
+
+/-- Non-vacuity of the circular hypotheses: `n = 1`, `α = 1`, `κ = 0` (`wm₀ = 0`, `w = 1/2`),
+    offset `δ = 1`: the resultant `cos 1` is positive. -/
+example : (0 : ℝ) < utLambda 1 (1 : ℝ) 0 / (((1 : ℕ) : ℝ) + utLambda 1 (1 : ℝ) 0)
+      + 2 * (1 / (2 * (((1 : ℕ) : ℝ) + utLambda 1 (1 : ℝ) 0))) * ∑ _l : Fin 1, Real.cos 1 := by
+  have h : (0 : ℝ) < Real.cos 1 := Real.cos_one_pos
+  simp [utLambda]
+  linarith
+
+end circular
 
 end BFL
